@@ -15,7 +15,7 @@ Definition proj (p : proc) : oscore_seqno.fsc :=
 Definition with_fsc (p : proc) (s : oscore_seqno.fsc) : proc :=
   {| ssn := oscore_seqno.fsc_sender_sequence_number s; persisted := oscore_seqno.fsc_sequence_number_persisted s;
      chunk := oscore_seqno.fsc_sequence_number_chunksize s; limit := oscore_seqno.fsc_sequence_number_chunksize_limit s;
-     wpers := wpers p; uc := uc p |}.
+     wpers := wpers p; uc := uc p; pend := pend p |}.
 Definition Crashed : exn := OtherError 13.
 (* self._store(): the model's file-system steps on disk [d] with crash plan [a]; dying inside it aborts the caller *)
 Definition store_cb (p : proc) (d : disk) (a : option Z) (s : oscore_seqno.fsc) : M oscore_seqno.fsc :=
@@ -38,9 +38,9 @@ Proof.
   unfold with_fsc, set_chunk, set_persisted.
   cbn [oscore_seqno.fsc_sender_sequence_number oscore_seqno.fsc_sequence_number_persisted
        oscore_seqno.fsc_sequence_number_chunksize oscore_seqno.fsc_sequence_number_chunksize_limit
-       ssn persisted chunk limit wpers uc].
+       ssn persisted chunk limit wpers uc pend].
   set (q := {| ssn := ssn p; persisted := persisted p + chunk p; chunk := Z.min (chunk p * 2) (limit p); limit := limit p;
-              wpers := wpers p; uc := uc p |}).
+              wpers := wpers p; uc := uc p; pend := pend p |}).
   destruct (_store q d a) as [d' died] eqn:Es.
   cbn [snd fst]. destruct died; cbn [bind]; [cbn; rewrite Es; auto|].
   cbn [oscore_seqno.fsc_sender_sequence_number oscore_seqno.fsc_sequence_number_persisted].
